@@ -7,6 +7,7 @@
 #include <valgrind/memcheck.h>
 
 const SutInfo* g_info = 0;
+int g_logger_mode = 0;
 volatile int g_in_sut = 0;
 uint64_t g_allocs_in_sut = 0;
 Stats g_stats;
@@ -152,6 +153,7 @@ static void observe(Node& n, Obs& o) {
 
 static int flavour_rank_ok(int flavour, int kind) {
 	switch (kind) {
+	case A_LOGGER_ATTACH: case A_LOGGER_DETACH: return g_info->f_log != 0;
 	case A_CANCEL: return flavour == CF_GUARD;
 	case A_CHANGE_TO: case A_CHANGE_WITH: case A_SUCCEED_SELF: case A_FAIL_SELF: case A_SUCCEED: case A_FAIL:
 		return flavour == CF_GUARD || flavour == CF_FULL;
@@ -248,6 +250,12 @@ static int sim_hook_body(const SutView* v, SutAction* out) {
 		SutAction a = W.pending.front(); W.pending.pop_front();
 		if (!normalise_action(a, v)) continue;
 		if ((a.kind == A_CHANGE_TO || a.kind == A_CHANGE_WITH) && v->flavour == CF_GUARD) ++W.guard_requests;
+		if (a.kind == A_LOGGER_ATTACH || a.kind == A_LOGGER_DETACH) {
+			// the user code of this callback re-attaches / detaches the logger on the machine it belongs to, mid-call;
+			// under a logger-schedule override the step is kept (same callback numbering) but not performed
+			if (W.cur->role == ROLE_REPLICA) continue;
+			if (W.mode.logger_mode == 0) sut_attach_logger(W.cur->inst, a.kind == A_LOGGER_ATTACH ? 1 : 0);
+		}
 		e.action = a; *out = a; ret = 1; ++g_stats.actions;
 		break;
 	}
@@ -477,7 +485,7 @@ static void deliver(int count, int op_index) {
 		for (size_t i = 1; i < W.nodes.size(); ++i) {
 			Node& r = W.nodes[i];
 			if (r.role != ROLE_REPLICA || !r.alive) continue;
-			Op op; op.kind = OP_REPLAY_TRANSITION; op.a = m.dest; op.b = m.expect_active; op.c = m.kind;
+			Op op; op.kind = OP_REPLAY_TRANSITION; op.a = m.dest; op.b = (W.c->lossy && m.kind == 0) ? m.dest : m.expect_active; op.c = m.kind;
 			run_simple(static_cast<int>(i), OPX_REPLAY_MSG, &op, op_index);
 			nontrivial("replica_message_applied");
 		}
@@ -492,7 +500,7 @@ RunResult execute_case(const Case& c, const ExecMode& mode) {
 		if (posix_memalign(reinterpret_cast<void**>(&W.arena), 64, W.slot_size * ARENA_SLOTS)) abort();
 	}
 	W.nodes.clear(); W.snaps.clear(); W.channel.clear();
-	W.c = &c; W.mode = mode; W.rr = &rr; W.run_nontrivial = false;
+	W.c = &c; W.mode = mode; W.rr = &rr; W.run_nontrivial = false; g_logger_mode = mode.logger_mode;
 	W.fill_kind = mode.fill_override >= 0 ? mode.fill_override : c.fill;
 	W.fill_seed = c.paint; W.next_slot_hint = static_cast<int>(c.paint % ARENA_SLOTS);
 	for (int s = 0; s < ARENA_SLOTS; ++s) { W.slot_used[s] = false; dirty_slot(s); }
@@ -552,6 +560,13 @@ RunResult execute_case(const Case& c, const ExecMode& mode) {
 			g_stats.hit("clean_restarts");
 			break; }
 		case OP_DELIVER: deliver(op.a, oi); break;
+		case OP_CHANNEL_DROP: case OP_CHANNEL_DUP: case OP_CHANNEL_SWAP:
+			// network faults touch transition messages only (activation / deactivation travel reliably)
+			if (!c.lossy || W.channel.empty() || W.channel.front().kind != 0) break;
+			if (op.kind == OP_CHANNEL_DROP) { W.channel.pop_front(); mark_nontrivial("channel_drops"); }
+			else if (op.kind == OP_CHANNEL_DUP) { W.channel.push_front(W.channel.front()); mark_nontrivial("channel_duplicates"); }
+			else if (W.channel.size() >= 2 && W.channel[1].kind == 0) { Msg t = W.channel[0]; W.channel[0] = W.channel[1]; W.channel[1] = t; mark_nontrivial("channel_reorders"); }
+			break;
 		case OP_SAVE: run_simple(0, OP_SAVE, &op, oi); break;
 		case OP_CONSTRUCT: break;
 		default: {
@@ -577,6 +592,12 @@ RunResult execute_case(const Case& c, const ExecMode& mode) {
 	// end of history: drain the channel, then tear every instance down properly
 	const int endi = static_cast<int>(c.ops.size());
 	deliver(1 << 20, endi);
+	if (c.lossy && c.replicas && !W.nodes.empty() && W.nodes[0].alive && W.nodes[0].T.active) {
+		// faults have stopped: one resync message carrying the authority's current state heals every replica
+		bool any = false;
+		for (size_t k = 1; k < W.nodes.size(); ++k) if (W.nodes[k].role == ROLE_REPLICA && W.nodes[k].alive && W.nodes[k].T.active) any = true;
+		if (any) { push_msg(0, W.nodes[0].T.open, W.nodes[0].T.open); deliver(1, endi); g_stats.hit("channel_resyncs"); }
+	}
 	for (size_t k = W.nodes.size(); k-- > 0;) teardown(static_cast<int>(k), endi);
 
 	rr.digest_full = W.nodes.empty() ? 0 : W.nodes[0].digest_full;
